@@ -175,7 +175,7 @@ class C12(Check):
             'records over 5 (tid,pid,process) shapes; x filter configurations: filter_tid in {None,0,1,2,9} x filter_class in '
             'all lists of <=2 over {1,3,4,7,0xff} (duplicates, tuple type) x filter_subclass in all lists of <=2 over '
             '{0x40c,0x40d,0x301,0x140} (v2: full product for the tid/class/subclass filters; v3: class/subclass reduced to 6x4, '
-            'process filter in {None,name,pid-string,other}). Plus request histories: all sequences of 3 filter configurations (7 kinds) applied in turn to ONE parser object, optionally after a traces() request, on 3 streams - each listing must equal the reference for its own configuration. Oracle: listing == reference comprehension over the independent '
+            'process filter in {None,name,pid-string,other}). Plus the command-line tool (kevents --tid/-cf/-sf in decimal and 0x form; logs --tid/--process) against the same reference. Plus request histories: all sequences of 3 filter configurations (7 kinds) applied in turn to ONE parser object, optionally after a traces() request, on 3 streams - each listing must equal the reference for its own configuration. Oracle: listing == reference comprehension over the independent '
             'decode; logs never among events and vice versa. non-trivial = the event filter removes at least one and keeps at least '
             'one record. states = distinct filter configurations; transitions = parses.')
     assumptions = ('configuration x history product is complete within the stated alphabets',)
@@ -194,6 +194,7 @@ class C12(Check):
         out += [('v3', ch, part) for ch in chunked(streams3, 32) for part in range(8)]
         out += [('reconf', i) for i in range(len(RECONF))]
         out.append(('long',))
+        out.append(('cli',))
         return out
 
     def run_reconf(self, first, acc):
@@ -219,7 +220,61 @@ class C12(Check):
                                                          'classes_type': type(C).__name__, 'subclasses': list(S),
                                                          'subclasses_type': type(S).__name__, 'process': None}, detail)
 
+    def run_cli(self, acc):
+        """the command-line tool: `kevents --tid T -cf C.. -sf S..` and `logs --tid T --process P` must list exactly what the
+        reference filter keeps (the options must reach the right filters, in decimal and in 0x form)."""
+        from mc.cli import run_cli
+        streams = [(0, 7, 9, 14, 16, 19, 22, 27), (3, 10, 17, 24)]
+        for stream in streams:
+            blob, recs = container('v2', stream, ())
+            for T in (None, 1, 2, BIG):
+                for C in ([], [4], [3, 7], [1, 1]):
+                    for S in ([], [0x40c], [0x301, 0x140]):
+                        for hexform in (False, True):
+                            args = ['kevents']
+                            if T is not None:
+                                args += ['--tid', str(T)]
+                            for c in C:
+                                args += ['-cf', hex(c) if hexform else str(c)]
+                            for x in S:
+                                args += ['-sf', hex(x) if hexform else str(x)]
+                            code, lines, exc = run_cli(blob, args)
+                            exp = []
+                            for r in recs:
+                                d = ref_decode(r)
+                                if T is not None and d[3] != T:
+                                    continue
+                                if (C or S) and not ((d[5] >> 24) in C or (d[5] >> 16) in S):
+                                    continue
+                                exp.append(d)
+                            acc.case(nontrivial=bool(T or C or S), transitions=1, state=h64(('cli', T, tuple(C), tuple(S))))
+                            case = {'kind': 'cli', 'args': args, 'stream': list(stream)}
+                            if code != 0 or exc is not None:
+                                acc.violation('cli-kevents-failed', case, {'exit': code, 'error': repr(exc)[:200]})
+                            elif len(lines) != len(exp) or any(not l.startswith(str(d[0]) + ' ') for l, d in zip(lines, exp)):
+                                acc.violation('cli-event-filter-wrong-subsequence', case, {'got_n': len(lines), 'exp_n': len(exp)})
+        # logs
+        for logs in ((0, 1), (2, 3, 5), (4,)):
+            blob, recs = container('v3', (0, 9), logs)
+            rev = {v: k for k, v in STR.items()}
+            for T in (None, 1, 2, BIG):
+                for P in (None, 'A', '10', 'zzz'):
+                    args = ['logs'] + (['--tid', str(T)] if T is not None else []) + (['--process', P] if P is not None else [])
+                    code, lines, exc = run_cli(blob, args)
+                    el = []
+                    for i, l in enumerate(logs):
+                        tid, pid, name = LOGS[l]
+                        pname = rev[name] if name is not None else ''
+                        if (T is None or tid == T) and (P is None or P in (pname, str(pid))):
+                            el.append(i)
+                    acc.case(nontrivial=True, transitions=1, state=h64(('cli-logs', T, P)))
+                    if code != 0 or exc is not None or len(lines) != len(el):
+                        acc.violation('cli-log-filter-wrong-subsequence', {'kind': 'cli', 'args': args, 'logs': list(logs)},
+                                      {'exit': code, 'error': repr(exc)[:200], 'got_n': len(lines), 'exp_n': len(el)})
+
     def run_shard(self, desc, acc):
+        if desc[0] == 'cli':
+            return self.run_cli(acc)
         if desc[0] == 'long':
             return self.run_long(acc)
         if desc[0] == 'reconf':
@@ -261,6 +316,11 @@ class C12(Check):
             acc.sample(case)
 
     def replay(self, case):
+        if case['kind'] == 'cli':
+            from mc.run import Acc
+            acc = Acc()
+            self.run_cli(acc)
+            return [(sig, v['cases'][0][1]) for sig, v in acc.violations.items()]
         if case['kind'] == 'reconf':
             cfgs = [(c[0], tuple(c[1]) if t[0] == 'tuple' else list(c[1]), tuple(c[2]) if t[1] == 'tuple' else list(c[2]))
                     for c, t in zip(case['cfgs'], case['types'])]
